@@ -532,6 +532,24 @@ def run_multi(ctx, b, items):
     ctx.cov["correspondence"]["multi-schema"] = {"files": len(items), "failures": bad}
 
 
+def probe_reserved(ctx, b):
+    """the generator's split of Python's lower-case hard keywords into `reserved by EXPRESS` / `legal identifier` against the
+    front end under test: a schema that declares an entity named with a reserved one must be refused (the legal ones are
+    declared by the fixed shapes kw<i>, which must be accepted)"""
+    d = os.path.join(ctx.work, "reserved")
+    os.makedirs(d, exist_ok=True)
+    for k in G.EXPRESS_RESERVED_PY:
+        open(os.path.join(d, "r.exp"), "w").write(f"SCHEMA r;\nENTITY {k};\nEND_ENTITY;\nEND_SCHEMA;\n")
+        try:
+            r = subprocess.run([b.tool("exp2python"), "r.exp"], cwd=d, env=b.env(), capture_output=True, text=True, timeout=TOOL_TIMEOUT)
+        except subprocess.TimeoutExpired:
+            ctx.broken.append(("keyword split", f"exp2python did not return on ENTITY {k}")); return
+        ctx.count(1, key="reserved:" + k)
+        if r.returncode == 0:
+            ctx.broken.append(("keyword split (vlib/schema_gen_py18.EXPRESS_RESERVED_PY vs the EXPRESS front end)",
+                               f"`ENTITY {k};` is accepted: `{k}` is a Python keyword the generator never uses as an identifier")); return
+
+
 def batches(ctx):
     quick = ctx.tier == "quick"
     cdir = os.path.join(VERIF, "corpus", "C18")
@@ -624,6 +642,7 @@ def run(ctx):
     if os.path.exists(hang):
         multi.insert(0, (open(hang).read(), ["s_bebe", "s_ne"]))
     run_multi(ctx, run_.b, multi)
+    probe_reserved(ctx, run_.b)
     CB.run_bodies(ctx, run_.b, ctx.model_exe("m_c18"))
     CB.run_functions(ctx, run_.b, exe=ctx.model_exe("m_c18"))
     ctx.sample({"schema": all_s[-1].express(), "introspection": all_r[-1][2]["line"][:600]})
